@@ -15,6 +15,7 @@ import json
 import math
 import os
 import struct
+import zlib
 
 import dns.exception
 import dns.ipv4
@@ -33,7 +34,8 @@ from harness.props.C05_gen import BY_NAME, LETTERS, OCTET_POOL, TYPES, G
 RULE = (
     "values are structured wire forms of each of the 69 implemented record classes (every field drawn from its range with "
     "boundary pools; all 256 octet values in character-strings, names and opaque fields; TXT-like strings that are valid UTF-8 over a pool of C0/DEL/C1/NBSP/soft-hyphen/zero-width/ideographic-space/combining/astral code points under txt_is_utf8;  names below/at/outside the origin; "
-    "IPv6 zero-run and embedded-IPv4 shapes; canonical and degenerate bitmaps; blob lengths around the chunk sizes), crossed "
+    "IPv6 zero-run and embedded-IPv4 shapes; canonical and degenerate bitmaps; blob lengths around the chunk sizes), "
+    "a blank / control octet (LF, CR, TAB, space, NUL, DEL, …) at the end, start or inside otherwise plain strings, labels, tags and GPOS coordinates on the wire route and as \\\\DDD at token ends on the text route; crossed "
     "with text styles (origin/relativize on the print and on the parse side, relativize_to = parent / child / unrelated name of the origin for every name-bearing type, hex/base64 chunk sizes and separators, "
     "txt_is_utf8) and the RFC 3597 generic form; text soups and mutated valid text per type for the accept side; "
     "a case is non-trivial if its key (kind, type, wire/text, style) is new"
@@ -308,6 +310,8 @@ def rejected_wire_corr(ctx, c, rep, rdclass, rdtype, tname, wire):
               f"{tname}: from_wire rejects {wire.hex()} but from_text accepts {text!r} as {r.to_text()!r}", rep)
         return
     model_corr_fromtext(ctx, c, tname, text, None, True, r)
+    if tname in MODEL and tname not in NOWIRE:
+        ctx.corr(f"c05.wire.dec {tname} o=none {hx(wire)}", "err", c)
 
 
 def raw_control_in(text, style):
@@ -522,6 +526,9 @@ def eval_rt(ctx: Ctx, c: dict):
         rejected_wire_corr(ctx, c, rep, rdclass, rdtype, tname, wire)
         return
     ctx.count("type." + tname)
+    if tname in MODEL and tname not in NOWIRE:
+        # the model's from_wire (decoder + constructor validation, e.g. the GPOS float strings) on every accepted value
+        ctx.corr(f"c05.wire.dec {tname} o={enc_optname(worigin)} {hx(wire)}", "ok " + dump(tname, rd), c)
     st = c.get("style", {})
     style = mkstyle(st, origin)
     # --- producing text never fails (any accepted value, degenerate or not)
@@ -627,8 +634,8 @@ def eval_rt(ctx: Ctx, c: dict):
     if porigin is not None and not relto_checks(ctx, c, rep, rdclass, rdtype, tname, text, porigin):
         return
     # --- end of line: comment, parentheses, surplus token
-    if not eol_checks(ctx, c, rep, rdclass, rdtype, tname, text, porigin, prel, rd2):
-        return
+    if zlib.crc32(wire) % 2 == 0 and not eol_checks(ctx, c, rep, rdclass, rdtype, tname, text, porigin, prel, rd2):
+        return   # (every second value: run time of the quick tier)
     # --- equal record
     cmp_origin = origin if origin is not None else dns.name.root
     try:
@@ -749,7 +756,7 @@ def eval_generic(ctx: Ctx, c: dict):
         return
     ctx.count("generic.known.ok")
     rel = bool(c.get("rel", 1))
-    if not generic_variants(ctx, c, rep, rdclass, rdtype, tname, g.data, porigin, rel, rd2):
+    if zlib.crc32(wire) % 2 == 1 and not generic_variants(ctx, c, rep, rdclass, rdtype, tname, g.data, porigin, rel, rd2):
         return
     # the generic form under relativize_to different from origin
     if porigin is not None:
